@@ -90,7 +90,7 @@ class Panoptica_Statistic:
             header[0] == "subject_name"
         ), "First column is not subject_names, something wrong with the file?"
 
-        keys_in_order = list([tuple(c.split("-")) for c in header[1:]])
+        keys_in_order = list([tuple(c.rsplit("-", 1)) for c in header[1:]])
         metric_names = []
         for k in keys_in_order:
             if k[1] not in metric_names:
